@@ -6,6 +6,7 @@ exit 1: VIOLATION property=<id> replay=<path>
 exit 2: analysis broken (never a verdict)
 """
 import argparse
+import signal
 import importlib
 import json
 import os
@@ -17,6 +18,10 @@ sys.setrecursionlimit(20000)
 
 from sa import core, facts  # noqa: E402
 from sa.facts import Broken  # noqa: E402
+
+
+class _OutOfTime(BaseException):
+    pass
 
 
 def main():
@@ -38,8 +43,20 @@ def main():
         print("ANALYSIS-BROKEN property=%s no checker module: %s" % (pid, e))
         return 2
     chk = core.Check(pid, a.tier, a.root, level=getattr(mod, "LEVEL", "proof"))
+    # the rules take seconds on the tree they were written for; on a changed tree a symbolic rule may be handed expressions
+    # it cannot simplify in any useful time.  Past the budget the analysis is incomplete: what failed before is reported.
+    budget = int(os.environ.get("VERIF_RULE_BUDGET") or 900)
+
+    def on_alarm(signum, frame):
+        signal.alarm(5)          # again, in case a library swallows the first one
+        raise _OutOfTime()
+    signal.signal(signal.SIGALRM, on_alarm)
+    signal.alarm(budget)
     try:
-        mod.run(chk)
+        try:
+            mod.run(chk)
+        finally:
+            signal.alarm(0)
         if a.no_evidence:
             chk.write_evidence = lambda *x, **k: None
         if a.tier == "thorough" and not a.no_evidence and a.root == "/repo":
@@ -57,6 +74,9 @@ def main():
         return rc
     except Broken as e:
         return broken(chk, pid, str(e), a.no_evidence)
+    except _OutOfTime:
+        signal.alarm(0)
+        return broken(chk, pid, "the rules did not finish within their time budget of %d s" % budget, a.no_evidence)
     except Exception:
         traceback.print_exc()
         return broken(chk, pid, "internal error", a.no_evidence)
